@@ -96,9 +96,107 @@ def check_col(prog: Program, res: Result) -> None:
     res.floor("C10-col", 9)
 
 
+def _pair_eval(e: ast.AST, env: dict):
+    """Abstract value of an expression in hungarian_matching:
+    ('mat', transposed) the cost matrix | ('idx', axis, perms) assignment indices along `axis` re-ordered by `perms`
+    | ('perm', text) an index permutation | ('pairs', a0, a1) result tuple of the solver | None unknown."""
+    if isinstance(e, ast.Name):
+        return env.get(e.id)
+    if isinstance(e, ast.Attribute) and e.attr == "T":
+        v = _pair_eval(e.value, env)
+        return ("mat", not v[1]) if v and v[0] == "mat" else None
+    if isinstance(e, ast.Call):
+        f = norm(e.func)
+        last = f.split(".")[-1]
+        if last in ("asarray", "array", "list", "tuple", "ascontiguousarray", "copy") and e.args:
+            return _pair_eval(e.args[0], env)
+        if isinstance(e.func, ast.Attribute) and e.func.attr in ("tolist", "copy", "astype"):
+            return _pair_eval(e.func.value, env)
+        if last == "transpose" and e.args:
+            v = _pair_eval(e.args[0], env)
+            return ("mat", not v[1]) if v and v[0] == "mat" else None
+        if isinstance(e.func, ast.Attribute) and e.func.attr == "transpose" and not e.args:
+            v = _pair_eval(e.func.value, env)
+            return ("mat", not v[1]) if v and v[0] == "mat" else None
+        if last == "linear_sum_assignment" and e.args:
+            v = _pair_eval(e.args[0], env)
+            if v and v[0] == "mat" and not any(k.arg == "maximize" and astq.const_value(k.value) is not False for k in e.keywords):
+                a0, a1 = (1, 0) if v[1] else (0, 1)
+                return ("pairs", ("idx", a0, ()), ("idx", a1, ()))
+            return None
+        if last == "argsort" and e.args:
+            return ("perm", norm(e))
+        return None
+    if isinstance(e, ast.Subscript):
+        v = _pair_eval(e.value, env)
+        if v and v[0] == "pairs" and isinstance(astq.const_value(e.slice), int):
+            return v[1 + astq.const_value(e.slice)] if astq.const_value(e.slice) in (0, 1) else None
+        s = _pair_eval(e.slice, env)
+        if v and v[0] == "idx" and s and s[0] == "perm":
+            return ("idx", v[1], v[2] + (s[1],))
+        return None
+    if isinstance(e, ast.Tuple) and len(e.elts) == 2:
+        a, b = _pair_eval(e.elts[0], env), _pair_eval(e.elts[1], env)
+        if a and b and a[0] == "idx" and b[0] == "idx":
+            return ("pairs", a, b)
+    return None
+
+
+def check_pair(prog: Program, res: Result) -> None:
+    """hungarian_matching returns (row indices, column indices) of ONE solution, element k of the first paired with
+    element k of the second: rows index axis 0 (detections) and columns axis 1 (track ids) of the matrix it was given."""
+    from ..core.cfg import CFG
+    R = "C10-pair"
+    fi = prog.func("sleap_nn.tracking.utils:hungarian_matching")
+    res.touch(fi)
+    params = [a.arg for a in fi.node.args.args]
+    cfg = CFG(fi.node)
+    init = {params[0]: ("mat", False)} if params else {}
+
+    def transfer(node, env):
+        st = node.ast
+        if node.kind != "stmt" or not isinstance(st, (ast.Assign, ast.AnnAssign, ast.AugAssign)):
+            return env
+        env = dict(env)
+        if isinstance(st, ast.AugAssign):
+            for n in astq.target_names(st.target):
+                env[n] = None
+            return env
+        val = _pair_eval(st.value, env) if st.value is not None else None
+        for t in (st.targets if isinstance(st, ast.Assign) else [st.target]):
+            if isinstance(t, ast.Name):
+                env[t.id] = val
+            elif isinstance(t, (ast.Tuple, ast.List)) and len(t.elts) == 2 and val and val[0] == "pairs" and all(isinstance(x, ast.Name) for x in t.elts):
+                env[t.elts[0].id], env[t.elts[1].id] = val[1], val[2]
+            else:
+                for n in astq.target_names(t):
+                    env[n] = None
+        return env
+
+    def join(a, b):
+        return {k: (a.get(k) if a.get(k) == b.get(k) else None) for k in set(a) | set(b)}
+
+    IN = cfg.forward(init, transfer, join)
+    rets = [n for n in cfg.nodes.values() if n.kind == "stmt" and isinstance(n.ast, ast.Return) and n.id in IN]
+    res.ob(R, len(rets) >= 1, fi.qualname, "hungarian_matching returns", "no reachable return", fi.where)
+    for n in rets:
+        v = _pair_eval(n.ast.value, IN[n.id]) if n.ast.value is not None else None
+        where = f"{fi.module.relpath}:{n.ast.lineno}"
+        if v is None or v[0] != "pairs":
+            raise AnalysisError(f"hungarian_matching: `{short(n.ast, 60)}` is not recognised as (rows, cols) of a linear_sum_assignment solution ({where})")
+        a, b = v[1], v[2]
+        res.ob(R, a[1] == 0 and b[1] == 1, fi.qualname, "first result indexes rows (detections), second columns (track ids)",
+               f"`{short(n.ast, 60)}` returns indices of axis {a[1]} then axis {b[1]} of the cost matrix: callers read (detection, track id)", where)
+        res.ob(R, a[2] == b[2], fi.qualname, "both index arrays are in the same order (element k pairs with element k)",
+               f"`{short(n.ast, 60)}` re-orders its two index arrays differently ({list(a[2]) or 'as solved'} vs {list(b[2]) or 'as solved'}): "
+               "the k-th row index is no longer matched to the k-th column index", where)
+    res.floor(R, 3)
+
+
 def check(prog: Program, res: Result) -> None:
     c09.check_alloc(prog, res, rule="C10-alloc")
     check_col(prog, res)
+    check_pair(prog, res)
     res.assumptions.append("identity continuity over histories (numerical scores, matcher optimality) is not decided")
 
 
@@ -110,5 +208,12 @@ VARIANTS = [
     Variant("row-col-swapped", c09.FWF, "                current_instances.track_ids[row] = col\n", "                current_instances.track_ids[col] = row\n", "C10-col"),
     Variant("cost-not-negated", TRF, "        cost_matrix = -scores\n", "        cost_matrix = scores.copy()\n", "C10-col"),
     Variant("alloc-reuse", c09.LQF, "            new_track_id = max(self.current_tracks) + 1", "            new_track_id = len(self.tracker_queue)", "C10-alloc"),
+    Variant("pair-transposed", "sleap_nn/tracking/utils.py", "    row_ids, col_ids = linear_sum_assignment(cost_matrix)\n    return row_ids, col_ids",
+            "    col_ids, row_ids = linear_sum_assignment(cost_matrix.T)\n    order = np.argsort(row_ids)\n    return row_ids[order], col_ids", "C10-pair"),
+    Variant("pair-swapped", "sleap_nn/tracking/utils.py", "    return row_ids, col_ids", "    return col_ids, row_ids", "C10-pair"),
+    Variant("bp-pair-transposed-ok", "sleap_nn/tracking/utils.py", "    row_ids, col_ids = linear_sum_assignment(cost_matrix)\n    return row_ids, col_ids",
+            "    col_ids, row_ids = linear_sum_assignment(np.asarray(cost_matrix).T)\n    order = np.argsort(row_ids)\n    return row_ids[order], col_ids[order]", None),
+    Variant("bp-pair-direct", "sleap_nn/tracking/utils.py", "    row_ids, col_ids = linear_sum_assignment(cost_matrix)\n    return row_ids, col_ids",
+            "    return linear_sum_assignment(cost_matrix)", None),
     Variant("bp-rename", TRF, "            for track_id in self.candidate.current_tracks:\n                oks = [", "            for track_id in self.candidate.current_tracks:\n                # scores of this track\n                oks = [", None),
 ]
